@@ -1,1 +1,160 @@
-// verification harness (compiled into ntp-proto/src/algorithm/kalman/mod.rs under cfg(all(test, pendulum_project_ntpd_rs_verif)))
+// Harness for spec/ClockSel.tla and spec/ClockCtl.tla (clock controller, selection, leap vote, wrapper loop).
+// Compiled into ntp-proto/src/algorithm/kalman/mod.rs under cfg(all(test, pendulum_project_ntpd_rs_verif)):
+// a child of `algorithm::kalman`, so it can call select::select, combiner::combine, read the private fields of
+// KalmanClockController and (being a descendant of `algorithm`) those of TimeSyncControllerWrapper.
+//   mode "select": every TLC-enumerated candidate list -> real select(); reports the selected indices
+//   mode "leap":   every TLC-enumerated leap multiset (in 3 orders) -> real combine(); reports the vote
+//   mode "replay": TLC-generated walks of ClockCtl replayed through the real TimeSyncControllerWrapper
+//   mode "record": seeded random sessions through the wrapper, logged as ndjson for Trace_ClockCtl
+//   mode "filter": history shapes (FilterShapes) replayed on real source + clock controllers (C06)
+#![allow(clippy::all, dead_code, unused_imports)]
+
+use super::*;
+use crate::algorithm::{
+    InternalMeasurement, InternalSourceController, Measurement, SourceController, TimeSyncController,
+    TimeSyncControllerWrapper, TwoWaySourceControllerWrapper, WrapperMessage,
+};
+use crate::config::StepThreshold;
+use matrix::{Matrix, Vector};
+use serde_json::{Value, json};
+use std::sync::{Arc, Mutex};
+
+#[path = "/verif/harness/common/util.rs"]
+mod util;
+use util::{Rng, b, i, s};
+
+// ------------------------------------------------------------------------------------------------
+// pure functions: select() and combine()/vote_leap()
+// ------------------------------------------------------------------------------------------------
+fn leap_of(name: &str) -> NtpLeapIndicator {
+    match name {
+        "none" => NtpLeapIndicator::NoWarning,
+        "59" => NtpLeapIndicator::Leap59,
+        "61" => NtpLeapIndicator::Leap61,
+        "unknown" => NtpLeapIndicator::Unknown,
+        "unsync" => NtpLeapIndicator::Unsynchronized,
+        x => panic!("bad leap {x}"),
+    }
+}
+
+fn leap_name(l: NtpLeapIndicator) -> &'static str {
+    match l {
+        NtpLeapIndicator::NoWarning => "none",
+        NtpLeapIndicator::Leap59 => "59",
+        NtpLeapIndicator::Leap61 => "61",
+        NtpLeapIndicator::Unknown => "unknown",
+        NtpLeapIndicator::Unsynchronized => "unsync",
+    }
+}
+
+fn mk_snapshot(id: u64, center: f64, unc: f64, delay: f64, period: Option<f64>, leap: NtpLeapIndicator) -> SourceSnapshot {
+    SourceSnapshot {
+        index: ClockId(id),
+        state: KalmanState {
+            state: Vector::new_vector([center, 0.0]),
+            uncertainty: Matrix::new([[sqr(unc), 0.0], [0.0, 1e-12]]),
+            time: NtpTimestamp::from_fixed_int(0),
+        },
+        wander: 0.0,
+        delay,
+        period,
+        source_uncertainty: NtpDuration::from_fixed_int(0),
+        source_delay: NtpDuration::from_fixed_int(0),
+        leap_indicator: leap,
+        last_update: NtpTimestamp::from_fixed_int(0),
+    }
+}
+
+/// Interval ends are model integers k; concretely (k + shift) * unit with a dyadic unit, so that every float
+/// operation select() performs on them (sqrt of the variance, radius, offset -/+ radius) is exact.
+fn run_select(job: &Value) {
+    let cases = util::read_ndjson(job["input"].as_str().unwrap());
+    let mut out = util::NdjsonOut::create(job["output"].as_str().unwrap());
+    let mut rng = Rng::new(job["seed"].as_u64().unwrap_or(1));
+    let units = [1.0 / 1024.0, 1.0 / 16.0, 1.0 / 65536.0];
+    let shifts = [0.0, -2.0, -7.0, 100.0];
+    for (n, case) in cases.iter().enumerate() {
+        let unit = *rng.pick(&units);
+        let shift = *rng.pick(&shifts);
+        let m = i(case, "m") as usize;
+        let w = i(case, "w") as f64;
+        let sync = SynchronizationConfig { minimum_agreeing_sources: m, ..SynchronizationConfig::default() };
+        let algo = AlgorithmConfig { maximum_source_uncertainty: w * unit / 2.0, ..AlgorithmConfig::default() };
+        assert!(algo.range_statistical_weight == 2.0 && algo.range_delay_weight == 0.25);
+        let mut cands = Vec::new();
+        for (k, c) in case["c"].as_array().unwrap().iter().enumerate() {
+            let lo = (i(c, "lo") as f64 + shift) * unit;
+            let hi = (i(c, "hi") as f64 + shift) * unit;
+            let center = (lo + hi) / 2.0;
+            let radius = (hi - lo) / 2.0;
+            let (unc, delay) = match rng.below(3) {
+                0 => (radius / 2.0, 0.0),
+                1 => (0.0, radius * 4.0),
+                _ => (radius / 4.0, radius * 2.0),
+            };
+            let kind = s(c, "kind");
+            let period = if kind == "periodic" { Some(1000.0) } else { None };
+            let leap = if kind == "unsync" { NtpLeapIndicator::Unsynchronized } else { NtpLeapIndicator::NoWarning };
+            let sn = mk_snapshot(k as u64 + 1, center, unc, delay, period, leap);
+            // the concretisation is exact: the interval the code computes is the model's
+            let r = sn.offset_uncertainty() * 2.0 + sn.delay * 0.25;
+            assert!(sn.offset() - r == lo && sn.offset() + r == hi, "inexact concretisation");
+            cands.push(sn);
+        }
+        let res = util::catch(|| select::select(&sync, &algo, &cands));
+        let row = match res {
+            Ok(sel) => json!({"id": n, "sel": sel.iter().map(|x| x.index.0).collect::<Vec<_>>(), "panic": Value::Null}),
+            Err(p) => json!({"id": n, "sel": Value::Null, "panic": p}),
+        };
+        out.put(&row);
+    }
+    out.finish();
+}
+
+fn run_leap(job: &Value) {
+    let cases = util::read_ndjson(job["input"].as_str().unwrap());
+    let mut out = util::NdjsonOut::create(job["output"].as_str().unwrap());
+    let mut rng = Rng::new(job["seed"].as_u64().unwrap_or(1));
+    let algo = AlgorithmConfig::default();
+    for (n, case) in cases.iter().enumerate() {
+        let base: Vec<String> = case["l"].as_array().unwrap().iter().map(|x| x.as_str().unwrap().to_string()).collect();
+        let mut votes = Vec::new();
+        for order in 0..3 {
+            let mut ls = base.clone();
+            match order {
+                0 => {}
+                1 => ls.reverse(),
+                _ => {
+                    for k in (1..ls.len()).rev() {
+                        let j = rng.below(k as u64 + 1) as usize;
+                        ls.swap(k, j);
+                    }
+                }
+            }
+            let sel: Vec<SourceSnapshot> = ls
+                .iter()
+                .enumerate()
+                .map(|(k, l)| mk_snapshot(k as u64 + 1, 0.0, 1.0 / 1024.0, 1.0 / 1024.0, None, leap_of(l)))
+                .collect();
+            let res = util::catch(|| combine(&sel, &algo).map(|c| (c.leap_indicator, c.sources.len())));
+            votes.push(match res {
+                Ok(None) => json!({"vote": "keep", "combined": false, "used": 0}),
+                Ok(Some((v, used))) => json!({"vote": v.map(leap_name).unwrap_or("keep"), "combined": true, "used": used}),
+                Err(p) => json!({"vote": "panic", "panic": p}),
+            });
+        }
+        out.put(&json!({"id": n, "votes": votes}));
+    }
+    out.finish();
+}
+
+// ------------------------------------------------------------------------------------------------
+#[test]
+fn verif_kalman() {
+    let job = util::job();
+    match job["mode"].as_str().unwrap() {
+        "select" => run_select(&job),
+        "leap" => run_leap(&job),
+        m => panic!("unknown mode {m}"),
+    }
+}
